@@ -1175,6 +1175,21 @@ def _attribute_projections(key: ast.AST, pname: str, fn: ast.AST, org: Origins, 
         for n in ast.walk(e):
             if isinstance(n, ast.Name) and n.id == pname and parent(n) is not None:
                 top, whole = _chain_of(n)
+                comp = parent(n)
+                if whole and isinstance(comp, ast.comprehension) and comp.iter is n and isinstance(comp.target, ast.Name):
+                    # `f(x.attr) for x in p`: the key holds a projection of every element of p
+                    owner = parent(comp)
+                    elt = getattr(owner, "elt", None)
+                    if elt is not None:
+                        el_chains = []
+                        for x in ast.walk(elt):
+                            if isinstance(x, ast.Name) and x.id == comp.target.id:
+                                t2, w2 = _chain_of(x)
+                                el_chains.append((unparse(t2), w2))
+                        if el_chains and not any(w for _t, w in el_chains):
+                            for t2, _w in el_chains:
+                                proj.add(f"{pname}[*]" + t2[len(comp.target.id):])
+                            continue
                 if whole:
                     return None
                 # a test `x if p.attr else y` is not key material
@@ -1184,6 +1199,7 @@ def _attribute_projections(key: ast.AST, pname: str, fn: ast.AST, org: Origins, 
 
 def _whole_uses(value: ast.AST, pname: str, fn: ast.AST, org: Origins, at: ast.AST, proj: set[str]) -> list[str]:
     out = []
+    proj = {q for q in proj if "[*]" not in q} or ({"\0"} if proj else proj)
     for e in _expand_locals(value, fn, org, at):
         for n in ast.walk(e):
             if isinstance(n, ast.Name) and n.id == pname and parent(n) is not None:
@@ -1427,19 +1443,34 @@ def attr_memo(check: Check, repo: Repo, mods: list[Module], rule: str = "ATTR-ME
                         and isinstance(st.targets[0].value, ast.Name) and st.targets[0].value.id != "self"):
                     continue
                 holder, attr = st.targets[0].value.id, st.targets[0].attr
-                guard = next((a for a in ancestors(st) if isinstance(a, ast.If)), None)
-                if guard is None:
-                    continue
-                # the same attribute is read before the test and the test looks at what was read
+                # the same attribute is read before the store
                 reads = [
                     s for s in walk_body(fn)
                     if isinstance(s, ast.Assign) and isinstance(s.value, ast.Attribute) and s.value.attr == attr
-                    and unparse(s.value.value) == holder and s.lineno < guard.lineno and isinstance(s.targets[0], ast.Name)
+                    and unparse(s.value.value) == holder and s.lineno < st.lineno and isinstance(s.targets[0], ast.Name)
                 ]
                 if not reads:
                     continue
                 read_name = reads[0].targets[0].id
-                if read_name not in {x.id for x in ast.walk(guard.test) if isinstance(x, ast.Name)}:
+
+                def mentions(e: ast.AST) -> bool:
+                    return read_name in {x.id for x in ast.walk(e) if isinstance(x, ast.Name)}
+
+                # (a) recompute-guard: the store sits under `if <miss>:`; (b) early return: `if <hit>: return memo`
+                guard = next((a for a in ancestors(st) if isinstance(a, ast.If) and mentions(a.test)), None)
+                guard_is_hit = False
+                if guard is None:
+                    block = parent(st)
+                    sibs = getattr(block, "body", []) if block is not None else []
+                    if isinstance(block, ast.If) and st in block.orelse:
+                        sibs = block.orelse
+                    for sib in sibs:
+                        if sib is st:
+                            break
+                        if isinstance(sib, ast.If) and mentions(sib.test) and any(
+                                isinstance(r, ast.Return) and r.value is not None and unparse(r.value) == read_name for r in sib.body):
+                            guard, guard_is_hit = sib, True
+                if guard is None:
                     continue
                 n += 1
                 org = Origins(fn)
@@ -1451,11 +1482,61 @@ def attr_memo(check: Check, repo: Repo, mods: list[Module], rule: str = "ATTR-ME
                     if not any(c == h or c.startswith(h + ".") for h in holder_chains)
                 }
                 missing = {c for c in foreign if not any(c == k or k.startswith(c + ".") or c.startswith(k + ".") for k in covered - holder_chains)}
-                check.ob(rule, st, f"{qualname_of(st)}: {holder}.{attr} memoises a value", not missing,
-                         f"inputs outside {holder}: {sorted(foreign) or 'none'} - all in the hit test" if not missing else
-                         f"the stored value also depends on {sorted(missing)}, which the hit test `{unparse(guard.test)}` ignores: "
-                         f"the memo on `{holder}` answers for a different {sorted(missing)[0]}")
+                why = (f"inputs outside {holder}: {sorted(foreign) or 'none'} - all in the hit test" if not missing else
+                       f"the stored value also depends on {sorted(missing)}, which the hit test `{unparse(guard.test)}` ignores: "
+                       f"the memo on `{holder}` answers for a different {sorted(missing)[0]}")
+                ok = not missing
+                if ok:
+                    bad_cell = _memo_guard_logic(guard.test, guard_is_hit, read_name, holder, bool(foreign))
+                    if bad_cell is not None:
+                        ok = False
+                        why = (f"the test `{unparse(guard.test)}` serves the memo when {bad_cell}: a hit requires a stored value "
+                               "AND stored inputs identical to the current ones")
+                check.ob(rule, st, f"{qualname_of(st)}: {holder}.{attr} memoises a value", ok, why)
     check.note(attr_memos=n)
+
+
+def _memo_guard_logic(test: ast.AST, test_is_hit: bool, read_name: str, holder: str, has_foreign: bool) -> str | None:
+    """Truth table of the memo guard over A = 'nothing stored yet' and B = 'stored inputs are the current ones'.
+    Returns a description of a cell in which the memo is served although it must not be, else None."""
+    import itertools
+
+    def atom(e: ast.AST):
+        if isinstance(e, ast.Compare) and len(e.ops) == 1 and isinstance(e.ops[0], (ast.Is, ast.IsNot, ast.Eq, ast.NotEq)):
+            l, r = e.left, e.comparators[0]
+            neg = isinstance(e.ops[0], (ast.IsNot, ast.NotEq))
+            texts = (unparse(l), unparse(r))
+            if read_name in texts and any(t in ("Undefined", "None") for t in texts):
+                return ("A", neg)
+            if any(t.startswith(holder + ".") for t in texts):
+                return ("B", neg)
+        return None
+
+    def ev(e: ast.AST, env: dict[str, bool]):
+        if isinstance(e, ast.BoolOp):
+            vals = [ev(v, env) for v in e.values]
+            if any(v is None for v in vals):
+                return None
+            return all(vals) if isinstance(e.op, ast.And) else any(vals)
+        if isinstance(e, ast.UnaryOp) and isinstance(e.op, ast.Not):
+            v = ev(e.operand, env)
+            return None if v is None else not v
+        a = atom(e)
+        if a is None:
+            return None
+        name, neg = a
+        return env[name] != neg
+
+    for A, B in itertools.product((False, True), repeat=2):
+        if not has_foreign and not B:
+            continue
+        t = ev(test, {"A": A, "B": B})
+        if t is None:
+            return None  # not a pure combination of the two atoms: nothing to say
+        hit = t if test_is_hit else not t
+        if hit and (A or not B):
+            return ("nothing has been stored yet" if A else "the stored inputs differ from the current ones")
+    return None
 
 
 # -- C02: the two readers of a resolver's source object agree on what a mapping is -------------------
@@ -1493,3 +1574,124 @@ def source_siblings(check: Check, repo: Repo, rule: str = "SOURCE-SIBLINGS") -> 
                      "evaluated under `not isinstance(source, Mapping)`" if ok else
                      "attribute lookup can run for a Mapping source: a dict without the key answers with its own methods "
                      "(`items`, `keys`, `copy` ...), which are then called as resolvers")
+
+
+# -- C06 round 3: shared trackers, cancellation handlers, abort-aware awaits ------------------------------
+
+USER_CALLBACKS = {"is_type_of", "resolve_type", "resolve_fn", "resolve_type_fn", "type_resolver", "field_resolver"}
+
+
+def shared_trackers(check: Check, repo: Repo, rule: str = "SHARED-TRACKERS") -> None:
+    check.rule(
+        rule,
+        "the sets in which an executor registers work it started (filled with .add by track_* / "
+        "settle_in_background: pending_incremental_futures, background_futures) are what the root executor's "
+        "hook and cancel routines wait on; a copy constructor (`x = copy(self)`) therefore never gives the copy "
+        "a set of its own - work registered by a sub-executor would be invisible to the root, and the "
+        "work-finished hook would fire while it is still pending",
+    )
+    classes = ClassIndex(repo)
+    base = classes.get("execution.executor", "Executor")
+    trackers: set[str] = set()
+    for ci in [base, *classes.subclasses(base)]:
+        for name, m in ci.methods().items():
+            if not (name.startswith("track_") or name == "settle_in_background"):
+                continue
+            alias = {
+                a.targets[0].id: a.value.attr for a in walk_body(m)
+                if isinstance(a, ast.Assign) and isinstance(a.targets[0], ast.Name) and isinstance(a.value, ast.Attribute) and unparse(a.value.value) == "self"
+            }
+            for c in walk_body(m):
+                if isinstance(c, ast.Call) and isinstance(c.func, ast.Attribute) and c.func.attr == "add":
+                    r = c.func.value
+                    if isinstance(r, ast.Attribute) and unparse(r.value) == "self":
+                        trackers.add(r.attr)
+                    elif isinstance(r, ast.Name) and r.id in alias:
+                        trackers.add(alias[r.id])
+    if len(trackers) < 2:
+        raise AnalysisError(f"tracker sets not recognised: {sorted(trackers)}")
+    n = 0
+    for ci in [base, *classes.subclasses(base)]:
+        for m in ci.methods().values():
+            copies = [s for s in walk_body(m) if isinstance(s, ast.Assign) and isinstance(s.value, ast.Call) and call_name(s.value) == "copy"
+                      and [unparse(a) for a in s.value.args] == ["self"] and isinstance(s.targets[0], ast.Name)]
+            if not copies:
+                continue
+            var = copies[0].targets[0].id
+            assigned = {s.targets[0].attr: s for s in walk_body(m)
+                        if isinstance(s, ast.Assign) and isinstance(s.targets[0], ast.Attribute) and unparse(s.targets[0].value) == var}
+            n += 1
+            bad = sorted(set(assigned) & trackers)
+            check.ob(rule, m, f"{ci.name}.{m.name}: the copy shares {sorted(trackers)}", not bad,
+                     "tracker sets are not re-assigned" if not bad else
+                     f"`{var}.{bad[0]} = {unparse(assigned[bad[0]].value)}` detaches the copy's tracked work from the root executor")
+    if n < 2:
+        raise AnalysisError("SHARED-TRACKERS: copy constructors not found")
+
+
+def cancel_catch(check: Check, repo: Repo, mods: list[Module], rule: str = "CANCEL-CATCH") -> None:
+    check.rule(
+        rule,
+        "a handler that exists to cancel awaited work when the awaiting coroutine is itself interrupted (its "
+        "body calls <task>.cancel() and re-raises) catches BaseException: the interruption arrives as "
+        "asyncio.CancelledError, which `except Exception` does not catch - the inner task would keep running "
+        "after its awaiter is gone (asyncio.gather propagates the cancellation to its children by itself and "
+        "is exempt; asyncio.wait and a bare task are not)",
+    )
+    n = 0
+    for mod in mods:
+        for t in ast.walk(mod.tree):
+            if not isinstance(t, ast.Try):
+                continue
+            awaited = [x.value for s in t.body for x in ast.walk(s) if isinstance(x, ast.Await)]
+            # asyncio.gather cancels its children when its awaiter is cancelled; wait() and a bare task do not
+            if not awaited or all(isinstance(v, ast.Call) and last_attr(v) in ("gather", "gather_with_cancel") for v in awaited):
+                continue
+            for h in t.handlers:
+                cancels = [c for s in h.body for c in ast.walk(s) if isinstance(c, ast.Call) and isinstance(c.func, ast.Attribute) and c.func.attr == "cancel"]
+                reraises = any(isinstance(x, ast.Raise) and x.exc is None for s in h.body for x in ast.walk(s))
+                if not (cancels and reraises):
+                    continue
+                types = {"BaseException"} if h.type is None else (
+                    {unparse(e) for e in h.type.elts} if isinstance(h.type, ast.Tuple) else {unparse(h.type)})
+                ok = bool(types & {"BaseException", "CancelledError", "asyncio.CancelledError"})
+                n += 1
+                check.ob(rule, h, f"{qualname_of(h)}: except {', '.join(sorted(types))}: ... {node_text(cancels[0], 40)}; raise", ok,
+                         "catches cancellation" if ok else "does not catch CancelledError: the task is only cancelled for ordinary exceptions")
+    if n < 1:
+        raise AnalysisError("CANCEL-CATCH: no cancelling handler found")
+
+
+def abort_wrap(check: Check, repo: Repo, rule: str = "ABORT-WRAP") -> None:
+    check.rule(
+        rule,
+        "an awaitable handed back by a user callback (is_type_of, resolve_type, a resolver) is awaited only "
+        "through self.with_abort_signal(...): awaited bare, a callback that never settles keeps the field - "
+        "and with it the unwinding of an aborted operation - pending forever",
+    )
+    mod = repo.mod("execution.executor")
+    cls = repo.cls("execution.executor", "Executor")
+    n = 0
+    for m in cls.body:
+        if not isinstance(m, FuncDef):
+            continue
+        user: dict[str, ast.AST] = {}
+        for s in ast.walk(m):
+            if isinstance(s, ast.Assign) and len(s.targets) == 1 and isinstance(s.targets[0], ast.Name) and isinstance(s.value, ast.Call) \
+                    and last_attr(s.value) in USER_CALLBACKS:
+                user[s.targets[0].id] = s
+        if not user:
+            continue
+        for a in ast.walk(m):
+            if isinstance(a, ast.Await):
+                v = a.value
+                if isinstance(v, ast.Name) and v.id in user:
+                    n += 1
+                    check.ob(rule, a, f"{qualname_of(a)}: await {v.id}", False,
+                             f"`{v.id}` is the result of the user callback `{unparse(user[v.id].value.func)}`; it is awaited without the abort signal")
+                elif isinstance(v, ast.Call) and last_attr(v) == "with_abort_signal" and v.args and isinstance(v.args[0], ast.Name) and v.args[0].id in user:
+                    n += 1
+                    check.ob(rule, a, f"{qualname_of(a)}: await with_abort_signal({v.args[0].id})", True, "abort-aware")
+    _ = mod
+    if n < 2:
+        raise AnalysisError("ABORT-WRAP: awaits of user callback results not found")
